@@ -667,7 +667,7 @@ func compactObs(os []interface{}) []interface{} {
 // arrEv builds an array of kind k from (idx, elts) and probes it.
 func arrEv(k arrKind, idx []int32, elts [][]byte, probes []int32) Ev {
 	e := Ev{"ev": "arr", "type": k.name, "w": k.w, "index": idx, "nelts": len(elts), "err": "", "pan": "", "built": 0,
-		"cnt": -1, "bits": []int{}, "offsets": []int{}, "probes": probes,
+		"cnt": -1, "bits": []int{}, "offsets": []int{}, "probes": probes, "wire": []int{},
 		"typed": []interface{}{}, "generic": []interface{}{}, "raw": []interface{}{}, "rttyped": []interface{}{}, "rtgeneric": []interface{}{}}
 	ev := [][]int{}
 	for _, b := range elts {
@@ -729,6 +729,9 @@ func arrEv(k arrKind, idx []int32, elts [][]byte, probes []int32) Ev {
 		if merr != nil {
 			e["pan"] = "marshal: " + merr.Error()
 			return
+		}
+		if len(bs) <= 2048 {
+			e["wire"] = bints(bs) // Level C: the message byte for byte (SlimArray.ArrayMsg)
 		}
 		a2, b2 := k.fresh()
 		if err := proto.Unmarshal(bs, b2); err != nil {
@@ -1027,7 +1030,7 @@ func genArray(t *Tracer, m *Meta, tier string, seed int64) {
 
 func structArrEv(idx []int32, elts []arrStruct, probes []int32) Ev {
 	e := Ev{"ev": "arr", "type": "struct", "w": 6, "index": idx, "nelts": len(elts), "err": "", "pan": "", "built": 0,
-		"cnt": -1, "bits": []int{}, "offsets": []int{}, "probes": probes,
+		"cnt": -1, "bits": []int{}, "offsets": []int{}, "probes": probes, "wire": []int{},
 		"typed": []interface{}{}, "generic": []interface{}{}, "raw": []interface{}{}, "rttyped": []interface{}{}, "rtgeneric": []interface{}{}}
 	ev := [][]int{}
 	enc := func(s arrStruct) []byte {
@@ -1060,6 +1063,9 @@ func structArrEv(idx []int32, elts []arrStruct, probes []int32) Ev {
 		}
 		e["offsets"] = off
 		bs, _ := proto.Marshal(&a.Base)
+		if len(bs) <= 2048 {
+			e["wire"] = bints(bs)
+		}
 		g2 := &array.Array{}
 		if len(idx) > 0 {
 			te, _ := encode.NewTypeEncoderEndian(arrStruct{}, binary.LittleEndian)
